@@ -90,7 +90,7 @@ func (ev *CallEvent) named(n string) bool {
 		return true
 	}
 	if ev.Kind == "fn" {
-		if i := strings.LastIndex(ev.Desc, "."); i >= 0 && ev.Desc[i+1:] == n {
+		if i := strings.LastIndex(ev.Desc, "."); ev.Desc[i+1:] == n {
 			return true
 		}
 	}
